@@ -93,10 +93,21 @@ class Built:
                 if m.get('alias') or m.get('exp') is True:
                     self.exposed_by_decorator.append((i, name, list(m.get('alias') or []), f,
                                                       m.get('exp') is True or m.get('exp') is None))
+                want = None
                 if m.get('conf') is not None:
                     # the documented way to attach handler config: the `cherrypy.config(**kw)` decorator
                     cherrypy.config(**dict(m['conf']))(f)
-                    self.config_by_decorator.append((i, name, dict(m['conf']), f))
+                    want = dict(m['conf'])
+                if m.get('tooldeco') is not None:
+                    # `@cherrypy.tools.<name>(**kw)`: Tool.__call__ turns the tool on in the handler's _cp_config
+                    tname, kw = m['tooldeco']
+                    getattr(cherrypy.tools, tname)(**dict(kw))(f)
+                    want = dict(want or {})
+                    want['tools.%s.on' % tname] = True
+                    for k, v in kw.items():
+                        want['tools.%s.%s' % (tname, k)] = v
+                if want is not None:
+                    self.config_by_decorator.append((i, name, want, f))
                 ns[name] = f
             if nd.get('call') is not None:
                 f = self._probe('%d()' % i)
@@ -484,6 +495,7 @@ class Runner:
             'allow': allow,
             'path_info': self.seen_path[0] if self.seen_path else None,
             'body': body,
+            'headers': list(got.get('headers', [])),
         }
 
 
